@@ -391,6 +391,9 @@ def call_method(interp, obj, name, args, kwargs, g):
                 raise Unsupported("gate on a symbolic qubit index")
             obj.add(g, name, [int(a) for a in args])
             return None
+        hook = getattr(obj, "guarded_" + name, None)          # subclasses of the model may implement further methods that need the path guard
+        if hook is not None:
+            return hook(g, *args, **kwargs)
         raise Unsupported(f"QuantumCircuit.{name} on the circuit model")
     if isinstance(obj, np.ndarray) and (obj.dtype == object or isinstance(obj, SArr)):
         return sarr_method(interp, obj, name, args, kwargs, g)
@@ -946,6 +949,8 @@ def call_native(interp, fn, args, kwargs, g):
             pass
     if isinstance(fn, type) and issubclass(fn, BaseException):
         return fn(*[a if not has_sym(a) else "<sym>" for a in args])
+    if getattr(fn, "_hv_symbolic_ok", False) or getattr(type(getattr(fn, "__self__", None)), "_hv_symbolic_ok", False):
+        return fn(*args, **kwargs)            # contract stub of a dependency: accepts interpreter values as they are
     nargs = [to_native(a) for a in args]
     nkw = {k: to_native(v) for k, v in kwargs.items()}
     if has_sym(nargs) or has_sym(nkw):
